@@ -136,7 +136,7 @@ func VerifC13() {
 		kind = verifChoose("op", 4, 5)
 	}
 	for i := 0; i < n; i++ {
-		step := verifChoose("step", 0, 5)
+		step := verifChoose("step", 0, 6)
 		switch step {
 		case 0: // Add
 			t := trees[verifChoose("tree", 0, uint(len(trees)-1))]
@@ -176,6 +176,13 @@ func VerifC13() {
 			err := OutputFromMarkdown(w, &verifReader{lines: []string{verifRow("", 0, 0, a), verifRow("", 0, 1, b)}})
 			verifAssert(err == nil && w.out == a+"\n"+dLD+" "+b+"\n", "C13.md")
 			hist += "M"
+		case 6: // an unrelated From-Markdown text output whose writer refuses a write: it fails, and leaves nothing behind
+			w := newVerifWriter()
+			w.failAt = int(verifChoose("failAt", 0, 1))
+			a, b := verifName("name"), verifName("name")
+			err := OutputFromMarkdown(w, &verifReader{lines: []string{verifRow("", 0, 0, a), verifRow("", 0, 1, b)}})
+			verifAssert(err != nil, "C13.md.fails")
+			hist += "F"
 		case 5: // an operation of ANOTHER kind on one of the trees (plain text output): what it leaves in the nodes is not input
 			t := trees[verifChoose("tree", 0, uint(len(trees)-1))]
 			_, _ = c13Op(0, t)
